@@ -386,7 +386,7 @@ NOINSTR void on_signal(int sig) {
 	S.res.kind = sig == SIGVTALRM ? K_NONTERM : K_SIGNAL;
 	S.res.sig = sig;
 	snapshot_stack(S.res.stack, 4);
-	if (sig == SIGVTALRM) snprintf(S.res.msg, sizeof S.res.msg, "20 s of CPU without finishing");
+	if (sig == SIGVTALRM) snprintf(S.res.msg, sizeof S.res.msg, "CPU time limit (20 s + 1 s per 20 kB of input) exceeded");
 	send_result_and_exit();
 }
 
@@ -943,7 +943,7 @@ NOINSTR static void child_run(const Plan &p, int resfd, bool want_sink, bool wan
 #endif
 	struct itimerval it;
 	memset(&it, 0, sizeof it);
-	it.it_value.tv_sec = 20;
+	it.it_value.tv_sec = 20 + (time_t)(inbytes / 20000);  // CPU seconds; megabyte inputs get proportionally more (the step budget is the real bound)
 	setitimer(ITIMER_VIRTUAL, &it, nullptr);
 	signal(SIGPIPE, SIG_IGN);
 
